@@ -1,5 +1,5 @@
 import collections
-from math import modf
+from fractions import Fraction
 from typing import Deque, Generic, List, TypeVar
 
 """Misc helper functions"""
@@ -9,15 +9,15 @@ def number_to_string_with_stepsize(value: float, decimals: int, stepsize: float)
 
     negative = value < 0
 
-    steps = round(value / stepsize)
-    stepped_value = steps * stepsize
-    after_the_point, before_the_point = modf(stepped_value)
+    # Exact arithmetic: binary floating point can not represent steps like 0.2,
+    # which would result in values next to the grid (e.g. 8.6 => "8.59")
+    step = Fraction(str(stepsize))
+    steps = round(Fraction(value) / step)
+    scaled = int(abs(steps * step) * 10**decimals)
+    before_the_point, after_the_point = divmod(scaled, 10**decimals)
 
-    before_the_point = abs(before_the_point)
-    after_the_point = int(abs(after_the_point * (10 ** decimals)))
-
-    output = "-" if negative and (before_the_point > 0 or after_the_point > 0) else ""
-    output += str(int(before_the_point))
+    output = "-" if negative and scaled > 0 else ""
+    output += str(before_the_point)
     if decimals > 0:
         output += f".{str(after_the_point).rjust(decimals, '0')}"
 
